@@ -6,7 +6,8 @@ Theorems: lean/DaskModel/Props/C31.lean (tensordot_blocks for any chunking, K1 t
           algebra for two row blocks over a commutative ring with Mathlib's Matrix)
 Tie:      function level — `contract`: per-block partial dot products (NumPy on the aligned chunks dask really uses)
           vs `dotBlocks`, their sum vs da.dot; `tsqrplan`: the `stack-…-r1` groups and the `getitem-…-q2` slices of
-          the real tsqr graph vs `stackGroups`/`cumsumBlocks` (and the recursion condition);
+          the real tsqr graph vs `stackGroups`/`cumsumBlocks` (and the recursion condition); `tsqrwire` (_c31x.py): the whole
+          wiring of the real graph, level by level, vs the Lean plan (Model/TsqrPlan.lean, Props/C31xPlan.lean);
           API level — tensordot / dot / matmul / outer / inner / vdot / einsum vs NumPy for random shapes, chunkings,
           axes and subscripts (ints exact, floats tolerance); qr / svd residual, orthonormality, triangularity and
           singular-value checks for tall-and-skinny and short-and-fat chunkings; precondition errors.
@@ -26,7 +27,7 @@ from props import _c31x as X
 PROP = "C31"
 READY = True
 DRIVER = "dm_reduce"
-LEAN_MODULES = ["DaskModel.Props.C31"]
+LEAN_MODULES = ["DaskModel.Props.C31", "DaskModel.Props.C31xPlan"]
 CASE_TIMEOUT_S = 30
 LEVEL_TEXT = (
     "PARTIAL. Proved in Lean 4: tensordot_blocks / tensordot_blocks₂ / matmul_blocks — for every chunking of the contracted "
@@ -38,7 +39,19 @@ LEVEL_TEXT = (
     "unstacking slices tile [0,Σ)); TSQR block algebra over a commutative ring with Mathlib matrices for ANY number of row "
     "blocks of any heights (tsqr_n_blocks: A_i = Q_i R_i and [R_1;…;R_N] = Q'R' ⇒ A = (blockdiag(Q_i) Q') R'; "
     "tsqr_n_blocks_orthonormal; tsqr_recursive; sfqr_n_blocks; svd_from_qr, svd_from_qr_orthonormal; the two-block versions). "
-    "NOT proved: that the graph dask builds wires exactly these products (validated: tsqrplan diff + residual checks), "
+    "The WIRING of tsqr's task graph is modelled as data (Model/TsqrPlan: per recursive call the branch taken, all_blocks, the "
+    "stacked chunks, one slice per getitem-q2 task) and proved to instantiate that algebra: tsqr_offsets_partition (the Q' "
+    "slices are one per block, in order, disjoint, inside and covering the Σ min(m_i, c) rows of the stacked R; a block shorter "
+    "than wide contributes m_i rows, an empty one none), tsqr_recursive_slices_global / _within (the recursive branch's slices "
+    "stay inside the q_inner block they read and are, in global row coordinates, exactly the single-core slices, for any "
+    "grouping capacity), plan_levels_partition / plan_levels_chain (every level of the printed plan), plan_fuel_suffices (the "
+    "recursion ends within N + 2 calls: a level with cr_max ≥ 2c at least halves the blocks), RowPartition.equiv + "
+    "tsqr_sliced_wiring / tsqr_plan_matches_algebra (+ _orthonormal, _recursive): with such slices the dot-q3 blocks "
+    "np.dot(Q_i, Q'[start_i:stop_i]) are blockdiag(Q_i)·Q' and the hypotheses of tsqr_n_blocks hold, so A = [Q_i·Q'[slice_i]]·R'. "
+    "The plan is diffed against the real materialised graph (section tsqrwire: every task of every level decoded from keys and "
+    "arguments, incl. blocks shorter than wide, zero-row blocks, both branches, up to 6 levels). "
+    "NOT proved: the induction over the levels as one matrix statement (chained by hand), NumPy's vstack/slicing/dot "
+    "semantics (definitions), "
     "einsum's subscript parsing and the mapping of subscripts to blockwise indices, outer, result dtypes, and anything "
     "numerical — orthonormality, triangularity, residuals and singular values are validated against NumPy within tolerance."
 )
